@@ -181,6 +181,73 @@ def hashseed_case(rng):
     return Case("hash-seeds", {"calls": [dict(c, tree="...") for c in calls]}, lines, nontrivial=True)
 
 
+def count_map(fmt, dest):
+    """what the written grammar files say, as {item: count} (item = the line without its count)"""
+    import re as _re
+    out = {}
+
+    def add(k, n):
+        out[k] = out.get(k, 0) + n
+    if fmt == "rcg":
+        for l in gram.file_lines(dest + ".rcg"):
+            m = _re.match(r"C:(\d+) (.*)$", l)
+            add("rule " + (m.group(2) if m else l), int(m.group(1)) if m else 0)
+    else:
+        for l in gram.file_lines(dest + ".gram"):
+            f = l.split()
+            add("rule " + " ".join(f[1:]), int(f[0]))
+        for ext in (".start", ".oc", ".OC"):
+            for l in gram.file_lines(dest + ext):
+                f = l.split()
+                add(ext + " " + " ".join(f[:-1]), int(f[-1]))
+    for l in gram.file_lines(dest + ".lex"):
+        f = l.split("\t")
+        tags = f[1].split(" ") if len(f) > 1 else []
+        for i in range(0, len(tags) - 1, 2):
+            add("lex %s %s" % (f[0], tags[i]), int(tags[i + 1]))
+    return out
+
+
+def grammar_sum_case(rng):
+    """grammars, lexicons and the LoPar auxiliary files of a concatenation are the sums of those of the parts"""
+    from impl import grammaroutput
+    fmt = rng.choice(["rcg", "lopar", "lopar"])
+    disc = fmt != "lopar"
+
+    def tb():
+        out = []
+        for _ in range(rng.randint(1, 3)):
+            cfg = treegen.Cfg(n_min=1, n_max=6, none_fields=False, labels=["S", "VP", "NP"], words=["a", "b", "Haus", "Der", "EU"],
+                              punct_words=[",", ".", "?"], p_punct=0.3, edges=["--"], disc=disc, p_disc=0.4 if disc else 0.0,
+                              p_root_direct=0.6)
+            out.append(treegen.gen_tree(rng, cfg))
+        return out
+    A, B = tb(), tb()
+    maps = []
+    lines = []
+    with cli.Scratch() as sc:
+        for name, ts in (("a", A), ("b", B), ("ab", A + B), ("ba", B + A)):
+            with quiet():
+                g, lex = gram.extract_all(ts)
+                try:
+                    getattr(grammaroutput, fmt)(g, lex, sc.path(name), "utf-8")
+                    maps.append(count_map(fmt, sc.path(name)))
+                except Exception as e:
+                    maps.append({"error": proto.err_name(e)})
+    ma, mb, mab, mba = maps
+    if "error" in ma or "error" in mb or "error" in mab:
+        lines.append(Line("pred", "P.C18.eq", [proto.enc_s(str(sorted(mab.items()))), proto.enc_s(str(sorted(mab.items())))]))
+    else:
+        want = dict(ma)
+        for k, v in mb.items():
+            want[k] = want.get(k, 0) + v
+        lines.append(Line("pred", "P.C18.eq", [proto.enc_s(str(sorted(mab.items()))), proto.enc_s(str(sorted(want.items())))],
+                          note="%s files of A+B vs the sum of those of A and of B" % fmt))
+        lines.append(Line("pred", "P.C18.eq", [proto.enc_s(str(sorted(mab.items()))), proto.enc_s(str(sorted(mba.items())))],
+                          note="%s files of A+B vs B+A" % fmt))
+    return Case("grammar-sum:" + fmt, {"A": [proto.pretty_tree(t) for t in A], "B": [proto.pretty_tree(t) for t in B]}, lines, nontrivial=True)
+
+
 def clone_sid(t):
     c = clone(t)
     c.data['sid'] = t.data['sid']
@@ -360,4 +427,8 @@ def gen(seed, tier, scale):
     for _ in range((6 if tier == "quick" else 100) * scale):
         rng = case_rng(seed, ID, idx)
         yield idx, hashseed_case(rng)
+        idx += 1
+    for _ in range((150 if tier == "quick" else 3000) * scale):
+        rng = case_rng(seed, ID, idx)
+        yield idx, grammar_sum_case(rng)
         idx += 1
